@@ -11,7 +11,8 @@ RULE = ("on the state graph of C11 with signature support: for EVERY reachable k
         "(and attrs=NULL for the key's own pattern) must verify under verify and verify_precomputed; negative space, each alone: a message different mod r, m+r "
         "(must verify alike), EVERY other list of the alphabet (per slot absent / v1 / v2 / v1 with omitFromKeys set - the flag is not part of the statement, the id is), "
         "the signed list with its flags set differently (must verify), lists that set a hidden or differently-fixed slot, a0+G1, a1+G2, and a signature made by a key of "
-        "another pattern. state = (key state, E, message); non-trivial = message > 1")
+        "another pattern; LONG lists: l = 65 and list lengths 5, 9, 17, 33, 65 (every 2^k and 2^k+1 up to 65 in the thorough tier): sign / verify both ways, one "
+        "altered or dropped entry must fail. state = (key state, E, message); non-trivial = message > 1")
 ASSUMPTIONS = ["messages are scalars in Z_r: m and m+r are the same message", "a list entry with value 0 mod r is the same as an absent entry"]
 
 MESSAGES = [0, 1, ref.r - 1, ref.r, ref.r + 1, 2**256 - 1]
@@ -156,6 +157,34 @@ def eval_case(case):
     return msgs
 
 
+def eval_long(case):
+    """long attribute lists (l = 65): keygen for the n-entry list, sign its own pattern, verify both ways; one altered entry must fail"""
+    W = c11.world(case["cfg"], wk.LONG_L, True, case["seed"])
+    Ls = wk.long_list(case["n"])
+    key, state = W.replay([["keygen", Ls]])
+    pairs = [(i, W.vals[c], False) for i, c in Ls["e"]]
+    m = alpha.filler(case["seed"], "c13long", case["n"], 255)
+    msgs = []
+    for mode in ("direct", "pre"):
+        sig = sign(W, key, pairs, m, mode)
+        for vm in ("direct", "pre"):
+            if not verify(W, pairs, sig, m, vm):
+                msgs.append("list of %d entries: signature (%s) does not verify (%s)" % (case["n"], mode, vm))
+            for pos in (0, len(pairs) // 2, len(pairs) - 1):
+                bad = list(pairs)
+                bad[pos] = (bad[pos][0], (bad[pos][1] + 1) % ref.r, False)
+                if verify(W, bad, sig, m, vm):
+                    msgs.append("list of %d entries: signature also verifies (%s) with entry %d altered" % (case["n"], vm, pos))
+            if verify(W, pairs[:-1], sig, m, vm):
+                msgs.append("list of %d entries: signature also verifies (%s) with the last entry dropped" % (case["n"], vm))
+    # a key with fewer fixed slots signs the long list by filling free slots
+    key2, _ = W.replay([["keygen", {"e": Ls["e"][:2], "omit": False}]])
+    sig = sign(W, key2, pairs, m, "direct")
+    if not verify(W, pairs, sig, m):
+        msgs.append("list of %d entries signed by a key that fills %d free slots: does not verify" % (case["n"], case["n"] - 2))
+    return msgs
+
+
 def shards(ctx):
     build.build("asm")
     U = c11.universe(ctx, quick_l=3)
@@ -165,10 +194,19 @@ def shards(ctx):
     for st, hists in sorted(reach.items(), key=lambda kv: str(kv[0])):
         out.append({"state": [st[0], list(st[1])], "history": hists[0]})
     ctx.extra["abstract_states"] = len(reach)
+    for n in (wk.LONG_N if ctx.tier == "thorough" else [5, 9, 17, 33, 65]):
+        out.append({"sub": "long", "n": n})
     return out
 
 
 def run_shard(ctx, shard):
+    if shard.get("sub") == "long":
+        case = {"sub": "long", "cfg": "asm", "seed": ctx.seed, "n": shard["n"]}
+        msgs = eval_long(case)
+        ctx.ok(True, "long-list")
+        if msgs:
+            ctx.fail(case, "; ".join(msgs[:3]), sig="long-list")
+        return
     U = c11.universe(ctx, quick_l=3)
     vals = wk.values(ctx.seed)
     state = (shard["state"][0], tuple(shard["state"][1]))
@@ -201,11 +239,13 @@ def run_shard(ctx, shard):
 
 
 def replay(ctx, case):
+    if case.get("sub") == "long":
+        return eval_long(case)
     return eval_case(case)
 
 
 def finish(merged, cov):
-    for need in ("sign:positive", "sign:with-negatives", "incompatible-lists"):
+    for need in ("sign:positive", "sign:with-negatives", "incompatible-lists", "long-list"):
         if not merged.outcomes.get(need):
             return "class %s never exercised" % need
     cov["states"] = merged.extra.get("abstract_states", 1)
